@@ -50,6 +50,7 @@ def scenarios(ctx):
     stall = os.path.join(ctx.w, "stall.sock").encode()
     S.append(("state:socket-stream-stalled", ini(b"%{cmdline}", b"socket:" + stall, b"error_logging = yes\n"), {"noinject": True, "stall": stall}))
     S.append(("state:devlog-stream-stalled", ini(b"%{cmdline}", b"devlog"), {"noinject": True, "devlog": stall, "stall": stall}))
+    S.append(("state:file-flocked-by-someone-else", ini(b"%{cmdline}", b"file:" + ctx.log), {"noinject": True, "flock": ctx.log}))
     S.append(("state:devtty-no-terminal", ini(b"%{cmdline}", b"devtty", b"error_logging = yes\n"), {"noinject": True, "setsid": True}))
     return S
 
@@ -60,6 +61,8 @@ def script_for(ctx, ini, opts):
     s.add("sinkfull", "full", drv.hx(ctx.full)).add("fillsock", drv.hx(ctx.full)).add("sinkstd").add("ptypair").add("sighandlers")
     if opts.get("stall"):
         s.add("sinkstall", drv.hx(opts["stall"])).add("envset", drv.hx(b"REC_DEVLOG"), drv.hx(opts.get("devlog", ctx.devlog)))
+    if opts.get("flock"):
+        s.add("flockhold", drv.hx(opts["flock"]))
     if opts.get("pty"):
         s.add("sinkpty")
     if opts.get("setsid"):
